@@ -259,7 +259,7 @@ func c16EndsProbe(c *fw.Ctx, t geom.T, others []geom.T, snaps []snapshot, names 
 func c16Geoms(c *fw.Ctx, idx int) {
 	r := c.R
 	kind := gen.Kinds7[r.Intn(len(gen.Kinds7))]
-	layout := c01Layouts[r.Intn(len(c01Layouts))]
+	layout := gen.PickLayout(r, c01Layouts)
 	g := gen.Shape(r, kind, layout, gen.AnyClass(r), gen.ShapeOpts{})
 	storage := r.Intn(3)
 	var hist []string
@@ -401,7 +401,7 @@ func c16CoordBounds(c *fw.Ctx, idx int) {
 		return
 	}
 	// Bounds
-	layout := c01Layouts[r.Intn(len(c01Layouts))]
+	layout := gen.PickLayout(r, c01Layouts)
 	b := geom.NewBounds(layout)
 	kind := gen.Kinds7[r.Intn(len(gen.Kinds7))]
 	g := gen.Shape(r, kind, layout, gen.FiniteClass(r), gen.ShapeOpts{})
